@@ -233,7 +233,12 @@ def run_batch(prop, exe, meta, scen_list, res, timeout=180, leak=True):
             for x in v:
                 x['ops'] = cs[0]
                 res.violations.append(x)
-            res.inconclusive.append('scenario %d failed in batch (rc=%s, timeout=%s) but not alone' % (ci, rc, timed_out))
+            if timed_out:
+                # the batch as a whole hit its wall-clock watchdog (a loaded machine); every scenario of it is still run
+                # and compared - the rest of the batch continues below - so nothing is lost and nothing is concluded from it
+                res.cut_reasons['(batch watchdog, batch continued)'] = res.cut_reasons.get('(batch watchdog, batch continued)', 0) + 1
+            else:
+                res.inconclusive.append('scenario %d failed in batch (rc=%s) but not alone' % (ci, rc))
         pending = rest[1:]
 
 
